@@ -1,5 +1,5 @@
 """C02 — every library function string denotes the tree on the same line."""
-import math, os
+import math, os, re
 import numpy as np
 import common, extract, libgen, oracle_tree
 
@@ -18,20 +18,28 @@ LEVEL_TEXT = ("Partial proof. Proved in Lean for trees of any depth: (syntax, Pr
               "tree -> string -> sympify -> printer -> file -> fitting parser. NOT proved (hypothesis hcanon): that sympy's automatic evaluation under "
               "x>0, a_i real preserves the value. That link and the line alignment of trees_<n>.txt with all_equations_<n>.txt are checked on every run: "
               "every line of the explored libraries is evaluated by an independent prefix-tree evaluator and by lambdify of the stored string parsed with "
-              "EACH of the two real symbol tables, at generic points, finite values only. The Lean evalTree of the theorems is itself run over Float on the same trees and "
+              "EACH of the two real symbol tables, at generic points where the tree is finite (a string that is nan, infinite, non-real or unreadable there fails, "
+              "after both sides are re-evaluated with 40 digits so that overflow or cancellation does not decide); beyond the generated libraries the same comparison is made on PRNG-drawn trees "
+              "of complexity 6-8 and on form-directed trees (every (role in the parent, class of node) pair of sympy's canonical forms that any tree of complexity <= 6, "
+              "thorough <= 7, of the shipped bases reaches is exercised by at least 2 (thorough 4) different forms where that many exist, least-complexity witness first), "
+              "all pushed through the real node_to_string -> sympify -> ESRPrinter chain. The Lean evalTree of the theorems is itself run over Float on the same trees and "
               "points and compared with that independent evaluator (1e-9 relative, same finite/non-finite class).")
 TECHNIQUE = ("Lean 4 proof of the node_to_string/grammar round trip and of tree value = value of the string under both regenerated symbol tables + per-line numeric "
-             "conformance of tree vs stored string under both real symbol tables + Float conformance of the Lean tree evaluator with the oracle")
+             "conformance of tree vs stored string under both real symbol tables (libraries, PRNG-drawn trees, trees chosen to cover every reachable "
+             "role/class pair of the printer's input forms) + Float conformance of the Lean tree evaluator with the oracle")
 RULE = ("one case = one line of trees_<n>.txt / all_equations_<n>.txt evaluated at 6 generic points under the two symbol tables; non-trivial = the tree has an "
-        "operator node and at least one point where tree and string are finite; distinct by (basis, complexity, line)")
+        "operator node and at least one point where tree and string are finite; distinct by (basis, complexity, line); a drawn or form-directed tree pushed "
+        "through the real chain is one case each (3-4 points), distinct by (kind, basis, labels)")
 EXPLANATION = LEVEL_TEXT
-TRUSTED = ["harness/oracle_tree.py (independent evaluator of ESR's operator semantics: pow/sqrt/log on absolute values)",
+TRUSTED = ["harness/c02_forms.py (chooses WHICH trees are looked at; no verdict depends on it)", "mpmath / sympy evalf at 40 digits (second evaluation of tree and string at points where the string is not a finite real number in floating point)", "harness/oracle_tree.py (independent evaluator of ESR's operator semantics: pow/sqrt/log on absolute values)",
            "sympy.lambdify/numpy for evaluating the stored strings", "hand model ESRVerif/Model/NodeString.lean: toks/toPy tied by string-equality correspondence with node_to_string, "
            "opSem1/opSem2/evalTreeWith (the property's own definition of a tree's value) tied by Float conformance with harness/oracle_tree.py on every tree the check draws or reads",
            "Lean's Float operations (libm pow/log/exp/sin/sqrt) in the conformance run of evalTree; the theorems themselves are over an abstract RealLike structure and over Mathlib's real numbers",
            "C12's evalPy/applyFn as the model of how sympify applies a symbol-table entry (ESRVerif/Proofs/PrinterSem.lean, tied in C12)"]
 ASSUMPTIONS = ["hcanon: sympy's canonicalisation preserves the value at generic points (sampled on every line, not proved)",
-               "lines whose tree or string is finite at none of the sampled points are counted as never-finite and not compared",
+               "lines whose tree is finite at none of the sampled points are counted as never-finite and not compared; a point where the tree is finite in floating point but "
+               "the string is not a finite real number is compared only if the 40-digit value of the tree confirms the floating-point one (1e-6 relative)",
+               "form-directed search: role/class pairs of canonical forms are enumerated with sympy and the staged symbol table for trees of complexity <= 6 (thorough 7) with at most 4 parameters; constant sub-trees with integers beyond 64 and never-finite forms are not extended; pairs first reachable at higher complexity are left to the PRNG-drawn trees",
                "C02b theorems use total real arithmetic on both sides (x/0 = 0, log 0 = 0, Real.rpow); where the oracle raises (singular operation) the Float conformance run does not compare values"]
 # tables whose committed version may stand in as a hand-written model when the translator cannot read the source;
 # value = the correspondence that then ties it to the code (common.prove / common.decide)
@@ -164,6 +172,152 @@ def _finite(v):
     return math.isfinite(v.real) and math.isfinite(v.imag) and abs(v.imag) <= 1e-9 * max(1.0, abs(v.real))
 
 
+_HP_DIGITS = 40
+
+
+def _hp_tree(labels, basis, p):
+    """second independent evaluator of ESR's operator semantics, 40 significant digits (mpmath) on the exact binary values
+    of the point: None where the tree has no finite real value (zero denominator, log 0, 0 to a negative power)"""
+    import mpmath
+    with mpmath.workdps(_HP_DIGITS):
+        def chk(v):
+            if not mpmath.isfinite(v):
+                raise ValueError("not finite")
+            return v
+
+        def nz(v):
+            if v == 0:
+                raise ZeroDivisionError
+            return v
+
+        def powabs(u, v):
+            u = abs(u)
+            if u == 0:
+                if v < 0:
+                    raise ZeroDivisionError
+                return mpmath.mpf(1) if v == 0 else mpmath.mpf(0)
+            return mpmath.power(u, v)
+        un = {"inv": lambda u: 1 / nz(u), "square": lambda u: u * u, "cube": lambda u: u * u * u,
+              "sqrt": lambda u: mpmath.sqrt(abs(u)), "sqrt_abs": lambda u: mpmath.sqrt(abs(u)),
+              "log": lambda u: mpmath.log(abs(nz(u))), "log_abs": lambda u: mpmath.log(abs(nz(u))),
+              "log10_abs": lambda u: mpmath.log10(abs(nz(u))), "tenexp": lambda u: mpmath.power(10, u),
+              "exp": mpmath.exp, "sin": mpmath.sin, "cos": mpmath.cos, "tan": mpmath.tan, "abs": abs}
+        bi = {"+": lambda u, v: u + v, "-": lambda u, v: u - v, "*": lambda u, v: u * v, "/": lambda u, v: u / nz(v),
+              "pow": powabs, "pow_abs": powabs}
+
+        def ev(t):
+            lab, kids = t[0], t[2:]
+            if not kids:
+                if lab in p:
+                    return mpmath.mpf(p[lab])
+                v = oracle_tree.number_value(lab)
+                if v is None:
+                    raise ValueError("unbound leaf")
+                m = re.match(r"(-?\d+)/(\d+)\Z", lab)
+                return mpmath.mpf(int(m.group(1))) / int(m.group(2)) if m else mpmath.mpf(lab)
+            if len(kids) == 1:
+                return chk(un[lab](ev(kids[0])))
+            return chk(bi[lab](ev(kids[0]), ev(kids[1])))
+        try:
+            return chk(ev(oracle_tree.parse(labels, basis)))
+        except Exception:
+            return None
+
+
+def _hp_string(expr, p):
+    """value of the parsed stored string at the point, 40 digits (sympy evalf on the exact binary values):
+    ("real", mpf) | ("other", text) | None if the string has a symbol the point does not bind"""
+    import sympy, mpmath
+    subs = {}
+    for sy in expr.free_symbols:
+        if sy.name not in p:
+            return None
+        subs[sy] = sympy.Float(mpmath.mpf(p[sy.name]), _HP_DIGITS + 10)
+    try:
+        v = expr.evalf(_HP_DIGITS, subs=subs)
+        if not v.is_number or v.free_symbols:
+            v = expr.subs(subs).evalf(_HP_DIGITS)
+        re_, im_ = v.as_real_imag()
+        if v.is_number and v.is_finite and (re_.is_Float or re_.is_Rational):
+            if im_ == 0 or abs(im_) <= sympy.Float(10) ** (-_HP_DIGITS + 10) * (1 + abs(re_)):
+                return ("real", mpmath.mpf(str(sympy.Float(re_, _HP_DIGITS))))
+        return ("other", str(sympy.N(v, 12)))
+    except Exception as ex:
+        return ("other", "evaluation raises %s" % type(ex).__name__)
+
+
+def _settle(ctx, labels, basis, p, t, expr):
+    """the floating-point value of the tree is finite but the stored string gave no finite real number (nan, inf, a
+    non-real value, an exception, or it could not be read at all).  The property speaks of every point where the TREE is
+    finite, so this is a violation -- unless floating point is to blame (overflow / cancellation on either side): both
+    sides are re-evaluated with 40 digits.  -> None (the tree's finite value is not confirmed, or the point does not bind
+    the string's symbols: not compared) | True (equal at 40 digits) | text (what the string gives instead)"""
+    import mpmath
+    st = ctx.extra.setdefault("string_not_finite_real_where_tree_is", dict(points=0, tree_value_not_confirmed=0, unbound_symbol=0, equal_at_40_digits=0, violations=0))
+    st["points"] += 1
+    T = _hp_tree(labels, basis, p)
+    if T is None or abs(float(T) - t) > 1e-6 * max(1.0, abs(t)):
+        st["tree_value_not_confirmed"] += 1
+        ex = st.setdefault("not_confirmed_examples", [])
+        if len(ex) < 4:
+            ex.append(dict(tree=list(labels), point={k: round(v, 4) for k, v in p.items()}, float_value=t, value_at_40_digits=(None if T is None else float(T))))
+        return None
+    if expr is None:
+        st["violations"] += 1
+        return "cannot be read"
+    V = _hp_string(expr, p)
+    if V is None:
+        st["unbound_symbol"] += 1
+        return None
+    with mpmath.workdps(_HP_DIGITS):
+        if V[0] == "real" and abs(V[1] - T) <= mpmath.mpf(10) ** -7 * max(1, abs(T)):
+            st["equal_at_40_digits"] += 1
+            return True
+    st["violations"] += 1
+    return "gives %s" % (mpmath.nstr(V[1], 12) if V[0] == "real" else "no finite real number (%s)" % V[1])
+
+
+def _string_vs_tree(ctx, labels, basis, pts, tv, expr, f):
+    """the property at the given points, one reading of the stored string: -> (points compared, None | (point, tree value,
+    what the string gives)).  Points where the tree is not finite are not compared (the property does not speak of them)."""
+    ok = 0
+    for p, t in zip(pts, tv):
+        if not _finite(t):
+            continue
+        v = None
+        if f is not None:
+            try:
+                v = f(p["x"], p["a0"], p["a1"], p["a2"], p["a3"])
+            except Exception:
+                v = None
+        if v is not None and _finite(v):
+            v = complex(v).real
+            ok += 1
+            if abs(v - t) > 1e-7 * max(1.0, abs(v), abs(t)):
+                return ok, (p, t, "gives %.12g" % v)
+            continue
+        r = _settle(ctx, labels, basis, p, t, expr)
+        if r is None:
+            continue
+        ok += 1
+        if r is not True:
+            return ok, (p, t, r)
+    return ok, None
+
+
+def _parse_stored(s, reader, x, syms):
+    """-> (sympy expression | None if the table cannot read the string, numpy function | None)"""
+    import sympy
+    try:
+        e = reader(s)
+    except Exception:
+        return None, None
+    try:
+        return e, sympy.lambdify([x] + syms[:4], e, modules=["numpy"])
+    except Exception:
+        return e, None
+
+
 def _check_library(ctx, runname, basis, libdir, n, max_lines):
     import sympy, warnings
     warnings.filterwarnings("ignore")
@@ -196,29 +350,17 @@ def _check_library(ctx, runname, basis, libdir, n, max_lines):
             for tname, reader in (("generation", gen), ("fitting", fit)):
                 key = (tname, s)
                 if key not in cache:
-                    try:
-                        e = reader(s)
-                        cache[key] = sympy.lambdify([x] + syms[:4], e, modules=["numpy"])
-                    except Exception as ex:
-                        cache[key] = None
-                f = cache[key]
+                    cache[key] = _parse_stored(s, reader, x, syms)
+                e, f = cache[key]
                 if f is None:
                     stats["unparsable"] += 1
-                    continue
-                for p, t in zip(pts, tv):
-                    try:
-                        v = f(p["x"], p["a0"], p["a1"], p["a2"], p["a3"])
-                    except Exception:
-                        continue
-                    if not (_finite(v) and _finite(t)):
-                        continue
-                    v = complex(v).real
-                    ok += 1
-                    if abs(v - t) > 1e-7 * max(1.0, abs(v), abs(t)):
-                        ctx.fail("value:%s:n=%d:%s" % (runname, n, tname),
-                                 "line %d of %s n=%d: tree %r evaluates to %.12g but the stored string %r read with the %s symbol table gives %.12g at %s" % (
-                                     i, runname, n, labels, t, s, tname, v, {k: round(val, 4) for k, val in p.items()}), dict(rp, line=i))
-                        break
+                k, bad = _string_vs_tree(ctx, labels, basis, pts, tv, e, f)
+                ok += k
+                if bad:
+                    p, t, what = bad
+                    ctx.fail("value:%s:n=%d:%s" % (runname, n, tname),
+                             "line %d of %s n=%d: tree %r evaluates to %.12g but the stored string %r read with the %s symbol table %s at %s" % (
+                                 i, runname, n, labels, t, s, tname, what, {k2: round(val, 4) for k2, val in p.items()}), dict(rp, line=i))
             nontriv = len(labels) > 1 and ok > 0
             ctx.case((runname, n, i), nontrivial=nontriv)
             if ok:
@@ -227,6 +369,31 @@ def _check_library(ctx, runname, basis, libdir, n, max_lines):
                 stats["never_finite"] += 1
     stats["evalTree_mismatches"] = _tie_evaltree(ctx, tie, "library %s n=%d" % (runname, n))
     ctx.extra.setdefault("libraries", []).append(dict(basis=runname, n=n, **stats))
+
+
+def _compare_tree(ctx, kind, name, b, labels, arities, fstr, stored, x, syms, gen, fit, tie, npts=4):
+    """the property on ONE tree pushed through the real chain: value of the tree (independent oracle) against the value of
+    the stored string under each of the two real symbol tables, at generic points where the tree is finite"""
+    import sympy
+    pts = [dict([("x", ctx.rng.uniform(0.3, 3.0))] + [("a%d" % j, ctx.rng.choice([-1, 1]) * ctx.rng.uniform(0.3, 3.0)) for j in range(4)]) for _ in range(npts)]
+    tv = []
+    for p in pts:
+        try:
+            tv.append(oracle_tree.eval_labels(labels, b, p))
+        except Exception:
+            tv.append(float("nan"))
+    tie.append((labels, arities, pts[0], _oracle_val(labels, b, pts[0])))
+    ok = 0
+    for tname, reader in (("generation", gen), ("fitting", fit)):
+        e, f = _parse_stored(stored, reader, x, syms)
+        k, bad = _string_vs_tree(ctx, labels, b, pts, tv, e, f)
+        ok += k
+        if bad:
+            p, t, what = bad
+            ctx.fail("value:%s:%s:%s" % (kind, name, tname), "tree %r (basis %s): node_to_string %r is stored as %r, which read with the %s symbol table %s, the tree gives %.12g at %s" % (
+                labels, name, fstr, stored, tname, what, t, {kk: round(val, 4) for kk, val in p.items()}), dict(kind="tree", labels=labels, basis=b, name=name))
+    ctx.case((kind, name, tuple(labels)), nontrivial=ok > 0)
+    return ok
 
 
 def _sampled_trees(ctx, bases, count, nlo, nhi):
@@ -264,36 +431,74 @@ def _sampled_trees(ctx, bases, count, nlo, nhi):
             except Exception:
                 continue
             done += 1
-            pts = [dict([("x", ctx.rng.uniform(0.3, 3.0))] + [("a%d" % j, ctx.rng.choice([-1, 1]) * ctx.rng.uniform(0.3, 3.0)) for j in range(4)]) for _ in range(4)]
-            tv = []
-            for p in pts:
-                try:
-                    tv.append(oracle_tree.eval_labels(labels, b, p))
-                except Exception:
-                    tv.append(float("nan"))
-            tie.append((labels, s, pts[0], _oracle_val(labels, b, pts[0])))
-            ok = 0
-            for tname, reader in (("generation", gen), ("fitting", fit)):
-                try:
-                    f = sympy.lambdify([x] + syms[:4], reader(stored), modules=["numpy"])
-                except Exception:
-                    continue
-                for p, t in zip(pts, tv):
-                    try:
-                        v = f(p["x"], p["a0"], p["a1"], p["a2"], p["a3"])
-                    except Exception:
-                        continue
-                    if not (_finite(v) and _finite(t)):
-                        continue
-                    ok += 1
-                    v = complex(v).real
-                    if abs(v - t) > 1e-7 * max(1.0, abs(v), abs(t)):
-                        ctx.fail("value:sampled:%s:%s" % (name, tname), "tree %r (basis %s): node_to_string %r is stored as %r, which read with the %s symbol table gives %.12g, the tree gives %.12g at %s" % (
-                            labels, name, fstr, stored, tname, v, t, {kk: round(val, 4) for kk, val in p.items()}), dict(kind="tree", labels=labels, basis=b, name=name))
-                        break
-            ctx.case(("sampled", name, tuple(labels)), nontrivial=ok > 0)
+            _compare_tree(ctx, "sampled", name, b, labels, s, fstr, stored, x, syms, gen, fit, tie)
     ctx.extra["sampled_trees"] = done
     return _tie_evaltree(ctx, tie, "sampled trees n=%d..%d" % (nlo, nhi))
+
+
+def _form_directed_trees(ctx, bases, nmax, K, budget):
+    """beyond uniform sampling: trees chosen so that every (role in the parent, class of node) pair of sympy's canonical
+    forms that ANY tree of complexity <= nmax of the shipped bases reaches is exercised by K different forms
+    (harness/c02_forms.py: bottom-up enumeration of all canonical forms, one least witness tree per form).  The chosen
+    trees go through the real node_to_string -> initial_sympify (sympify + ESRPrinter) chain and are read back with both
+    real symbol tables; the verdict is the property's own statement on the values."""
+    import sympy, warnings, io, contextlib, time
+    warnings.filterwarnings("ignore")
+    import c02_forms
+    from esr.generation import generator as g
+    import esr.generation.simplifier as simp
+    from esr.fitting.sympy_symbols import sympy_locs
+    t0 = time.time()
+    en = c02_forms.Enumerator(sympy_locs, maxpar=4)
+    per, seen_b, complete = [], [], {}
+    # largest basis first: the forms of a sub-basis are then memoised
+    for name, b in sorted(bases, key=lambda nb: -len(nb[1][1])):
+        if b in seen_b:
+            continue
+        seen_b.append(b)
+        E, done = en.forms(b, nmax, deadline=t0 + budget)
+        complete[name] = done
+        per.append((name, b, E))
+    picked, st = c02_forms.cover(per, ctx.rng, K)
+    st.update(nmax=nmax, K=K, complete_up_to=complete, operator_applications=en.applications, enumeration_s=round(time.time() - t0, 1))
+    x, syms, gen, fit = _tables(4)
+    fstrs, ars = [], []
+    for name, b, labels, k, n, fs in picked:
+        ar = [oracle_tree.arity(l, b) for l in labels]
+        _, _, tree = g.check_tree(np.array(ar))
+        fstrs.append(g.node_to_string(0, tree, labels))
+        ars.append(ar)
+    stored, real_sym = None, {}
+    try:
+        with contextlib.redirect_stdout(io.StringIO()):
+            stored, real_sym = simp.initial_sympify(list(fstrs), 4, parallel=False, verbose=False)
+    except Exception:
+        stored = None
+    tie, compared, exercised, by_n = [], 0, set(), {}
+    with np.errstate(all="ignore"):
+        for i, (name, b, labels, k, n, fs) in enumerate(picked):
+            if stored is not None:
+                so = stored[i]
+            else:
+                try:
+                    with contextlib.redirect_stdout(io.StringIO()):
+                        so = simp.initial_sympify([fstrs[i]], max(k, 1), parallel=False, verbose=False)[0][0]
+                except Exception:
+                    continue
+            e = (real_sym or {}).get(so)
+            if e is not None:
+                try:
+                    exercised |= c02_forms.features(e)
+                except Exception:
+                    pass
+            ok = _compare_tree(ctx, "form", name, b, labels, ars[i], fstrs[i], so, x, syms, gen, fit, tie, npts=3)
+            compared += int(ok > 0)
+            by_n[n] = by_n.get(n, 0) + 1
+    st.update(trees=len(picked), trees_compared=compared, trees_by_complexity={str(k): v for k, v in sorted(by_n.items())},
+              pairs_exercised_in_the_real_chain=len(exercised), total_s=round(time.time() - t0, 1))
+    ctx.extra["form_directed"] = st
+    ctx.sample(dict(form_directed=st))
+    return _tie_evaltree(ctx, tie, "form-directed trees n<=%d" % nmax)
 
 
 def run(ctx):
@@ -319,6 +524,7 @@ def run(ctx):
         for k in range(1, nmax + 1):
             _check_library(ctx, rn, bmap[rn], r["dir"], k, 12000 if deep else 3000 if mid else 1500)
     _sampled_trees(ctx, shipped, 6000 if deep else 3000 if mid else 1200, 6, 9 if deep else 8)
+    _form_directed_trees(ctx, shipped, 7 if deep else 6, 4 if (deep or mid) else 2, 1500 if deep else 150)
     tie = ctx.extra.get("evalTree_tie", {})
     ctx.extra["corr_discharged"] = int(b == 0) + int(tie.get("mismatches", 1) == 0 and tie.get("compared_finite", 0) > 0)
     ctx.sample(dict(evalTree_tie=tie))
@@ -335,17 +541,15 @@ def replay(ctx, data):
         s = g.labels_to_shape(rp["labels"], rp["basis"])
         _, _, tree = g.check_tree(_np.array(s))
         fstr = g.node_to_string(0, tree, rp["labels"])
-        stored = simp.initial_sympify([fstr], 3, parallel=False, verbose=False)[0][0]
+        npar = 1 + max([int(l[1:]) for l in rp["labels"] if l[:1] == "a" and l[1:].isdigit()] + [0])
+        stored = simp.initial_sympify([fstr], max(npar, 3), parallel=False, verbose=False)[0][0]
         x, syms, gen, fit = _tables(4)
-        import sympy
         bad = False
-        for _ in range(6):
-            p = dict([("x", c2.rng.uniform(0.3, 3.0))] + [("a%d" % j, c2.rng.choice([-1, 1]) * c2.rng.uniform(0.3, 3.0)) for j in range(4)])
-            t = oracle_tree.eval_labels(rp["labels"], rp["basis"], p)
-            for reader in (gen, fit):
-                v = sympy.lambdify([x] + syms[:4], reader(stored), modules=["numpy"])(p["x"], p["a0"], p["a1"], p["a2"], p["a3"])
-                if _finite(v) and _finite(t) and abs(complex(v).real - t) > 1e-7 * max(1.0, abs(t)):
-                    print("tree", rp["labels"], "stored as", stored, ": string", v, "tree", t); bad = True
+        ar = [oracle_tree.arity(l, rp["basis"]) for l in rp["labels"]]
+        with np.errstate(all="ignore"):
+            _compare_tree(c2, "replay", rp.get("name", "?"), rp["basis"], rp["labels"], ar, fstr, stored, x, syms, gen, fit, [], npts=8)
+        for f in c2.failures[:4]:
+            print(f["what"]); bad = True
         return not bad
     from extractors import shape as shx
     bmap = {n: b for n, b, _ in shx.bases(ctx.stage)}
